@@ -20,6 +20,7 @@ var Registry = map[string]func(*core.Run){
 	"C10": CheckC10,
 	"C11": CheckC11,
 	"C12": CheckC12,
+	"C13": CheckC13,
 	"C17": CheckC17,
 	"C09": CheckC09,
 }
@@ -34,4 +35,9 @@ func Replay(prop, path string) int {
 	}
 	os.Stdout.Write(b)
 	return 0
+}
+
+// RaceDrivers are run by the race-detector build of the harness (txv <prop> race).
+var RaceDrivers = map[string]func(){
+	"C13": raceC13,
 }
